@@ -60,6 +60,7 @@ fn main() {
             "C13" => props::c13::replay(&ctx, &v),
             "C14" => props::c14::replay(&ctx, &v),
             "C15" => props::c15::replay(&ctx, &v),
+            "C16" => props::c16::replay(&ctx, &v),
             _ => {
                 eprintln!("unknown property {prop}");
                 std::process::exit(2);
@@ -78,6 +79,7 @@ fn main() {
             "C13" => props::c13::run(&ctx),
             "C14" => props::c14::run(&ctx),
             "C15" => props::c15::run(&ctx),
+            "C16" => props::c16::run(&ctx),
             _ => {
                 eprintln!("unknown property {prop}");
                 std::process::exit(2);
@@ -93,7 +95,7 @@ fn dev(args: &[String]) {
     let src = std::fs::read_to_string(&args[0]).expect("source file");
     let stack: Vec<u64> = args[1..].iter().filter_map(|s| s.parse().ok()).collect();
     let kernel = std::env::var("DEV_KERNEL").ok().map(|p| std::fs::read_to_string(p).expect("kernel file"));
-    let case = vm::Case { src, stack, kernel, ..Default::default() };
+    let case = vm::Case { src, stack, kernel, use_stdlib: std::env::var("DEV_STDLIB").is_ok(), ..Default::default() };
     let p = match vm::assemble(&case, false) {
         vm::Assembled::Ok(p) => p,
         vm::Assembled::Err(e) => return println!("asm error: {e}"),
